@@ -1085,6 +1085,12 @@ func init() {
 		delete(i.ps.env, pathStr(a[0]))
 		return iface{}
 	})
+	// JSON output of statistics / info commands: the text is not the subject of any property
+	for _, n := range []string{"encoding/json.MarshalIndent", "encoding/json.Marshal"} {
+		reg(n, func(i *interpreter, fr *frame, fn *ssa.Function, a []value) value {
+			return tuple{[]value{byte('{'), byte('}')}, iface{}}
+		})
+	}
 	// there is no network: a server that is asked to listen fails at once
 	for _, n := range []string{"(*net/http.Server).ListenAndServe", "(*net/http.Server).ListenAndServeTLS"} {
 		reg(n, func(i *interpreter, fr *frame, fn *ssa.Function, a []value) value {
@@ -1305,6 +1311,36 @@ func absInstant(st structure) (*big.Int, *big.Int) {
 	return q, r
 }
 
+// wallToAbs converts a concrete time.Time {wall, ext, loc} into the abstract form {hi, lo, marker}
+// (128-bit nanoseconds since the Unix epoch).
+func (i *interpreter) wallToAbs(t value) (structure, bool) {
+	st, ok := t.(structure)
+	if !ok || len(st) != 3 {
+		return nil, false
+	}
+	wall, ok1 := st[0].(uint64)
+	ext, ok2 := st[1].(int64)
+	if !ok1 || !ok2 {
+		return nil, false
+	}
+	const (
+		hasMonotonic   = 1 << 63
+		nsecMask       = 1<<30 - 1
+		unixToInternal = 62135596800 // seconds from year 1 to 1970
+		wallToInternal = 59453308800 // seconds from year 1 to 1885
+	)
+	sec := ext // seconds since year 1
+	if wall&hasMonotonic != 0 {
+		sec = int64(wall<<1>>31) + wallToInternal
+	}
+	ns := new(big.Int).Mul(big.NewInt(sec-unixToInternal), big.NewInt(1000000000))
+	ns.Add(ns, big.NewInt(int64(wall&nsecMask)))
+	mod := new(big.Int).Lsh(big.NewInt(1), 64)
+	lo := new(big.Int).Mod(ns, mod) // non-negative
+	hi := new(big.Int).Rsh(new(big.Int).Sub(ns, lo), 64)
+	return structure{uint64(hi.Int64()), int64(lo.Uint64()), i.absLoc()}, true
+}
+
 func (i *interpreter) isAbsTime(t value) (structure, bool) {
 	st, ok := t.(structure)
 	if !ok || len(st) != 3 {
@@ -1366,6 +1402,11 @@ func init() {
 	cmp := func(op token.Token) func(i *interpreter, fr *frame, st structure, a []value) value {
 		return func(i *interpreter, fr *frame, st structure, a []value) value {
 			o, ok := i.isAbsTime(a[1])
+			if !ok {
+				// a concrete time.Time in Go's own representation (zero value, file-system default,
+				// constants): convert it to the nanosecond count it stands for
+				o, ok = i.wallToAbs(a[1])
+			}
 			if !ok {
 				i.abort(outUnsupported, "comparison of an abstract instant with a wall-clock time")
 			}
